@@ -44,10 +44,24 @@ def seeds_appendix():
     return head + "\n".join(rows)
 
 
+def neutral_appendix():
+    rp = os.path.join(VERIF, "neutral", "RESULTS.json")
+    if not os.path.exists(rp):
+        return "(run `tools/neutralcheck.py --record`)"
+    r = json.load(open(rp))
+    rows = ["| patch | files | changed lines | checks run | result |", "|---|---|---|---|---|"]
+    for n, d in sorted(r.items()):
+        rows.append("| %s | %s | %d | %d | %s |" % (n, ", ".join(os.path.basename(f) for f in d["files"]), d["changed_lines"],
+                                                  d["checks_run"], "silent" if not d["alarms"] else "**ALARM** " + ", ".join(d["alarms"])))
+    silent = sum(1 for d in r.values() if not d["alarms"])
+    return "Last recorded run (`tools/neutralcheck.py --record`): %d of %d patches silent in all checks.\n\n%s" % (
+        silent, len(r), "\n".join(rows))
+
+
 def main():
     p = os.path.join(VERIF, "DESIGN.md")
     s = open(p).read()
-    for tag, text in (("RULES", rules_appendix()), ("SEEDS", seeds_appendix())):
+    for tag, text in (("RULES", rules_appendix()), ("SEEDS", seeds_appendix()), ("NEUTRAL", neutral_appendix())):
         b, e = "<!-- BEGIN GENERATED %s -->" % tag, "<!-- END GENERATED %s -->" % tag
         if b in s and e in s:
             s = s[:s.index(b) + len(b)] + "\n" + text + "\n" + s[s.index(e):]
